@@ -291,6 +291,7 @@ func c04one(t *testing.T, out *verifh.Out, r *rand.Rand, dir string) {
 		err = app.updateActiveNodes(cs, dcsView, old, master)
 	}()
 	evs := wd.TakeLog()
+	nowEnd := time.Now()
 	tr := c04trace(evs, master)
 	timersAfter := map[string]int64{}
 	for _, h := range app.cluster.AllNodeHosts() {
@@ -316,7 +317,7 @@ func c04one(t *testing.T, out *verifh.Out, r *rand.Rand, dir string) {
 	out.Line(map[string]any{"k": "c04",
 		"cfg": map[string]any{"semi_sync": semi, "wait_count": w, "delay": int64(cfg.InactivationDelay), "enable_lag": cfg.SemiSyncEnableLag, "master_first": cfg.MasterFirstAdjustSSOrder},
 		"cs":  vCSList(cs), "dcs": vCSList(dcsView), "old": old, "master": master, "recovery": recovery, "mgtid": mn.Executed, "muuid": um,
-		"timers": timers, "timers_after": timersAfter, "now": now.UnixNano(), "read_pos": readPos, "binlogs": blj,
+		"timers": timers, "timers_after": timersAfter, "now": now.UnixNano(), "now_end": nowEnd.UnixNano(), "read_pos": readPos, "binlogs": blj,
 		"world0": world0, "reachable": reach, "ahead": ahead, "trace": tr, "fail": map[string]any{"host": failHost, "op": failOp, "nth": failNth}, "dcs_fail": dcsFail,
 		"err": err != nil, "panic": panicked,
 		"final": map[string]any{"slave_enabled": finalSE, "master_enabled": mn.SemiMaster, "wait_count": mn.WaitCount, "published": pub}})
